@@ -80,6 +80,25 @@ def install(res):
     return st
 
 
+class PrintsDifferentlyStr(str):
+    def __str__(self):
+        return "Colour.RED"
+
+    def __repr__(self):
+        return "<Colour.RED: %s>" % str.__repr__(self)
+
+    def __format__(self, spec):
+        return "Colour.RED"
+
+
+class PrintsDifferentlyBytes(bytes):
+    def __str__(self):
+        return "b-tagged"
+
+    def __repr__(self):
+        return "<tagged %s>" % bytes.__repr__(self)
+
+
 def gen_keys(tier, seed):
     """yield (key, allow_unicode, prefix)"""
     reps = {c: (v if tier == "thorough" and len(v) <= 8 else v[:1]) for c, v in CLASSES.items()}
@@ -274,6 +293,10 @@ def shard(tier, seed, idx, n):
         # also keys that themselves begin with the configured prefix (a prefix must be applied, never 'recognised')
         for j, (key, uni, prefix) in enumerate(gen):
             yield key, uni, prefix
+            if j % 5 == 0 and type(key) in (str, bytes) and key:
+                # the same key as an instance of a str / bytes subclass whose str() and repr() say something else (a
+                # str-mixin Enum member, a tagged string): a key is its characters / bytes, not what it prints as
+                yield (PrintsDifferentlyStr(key) if type(key) is str else PrintsDifferentlyBytes(key)), uni, prefix
             if prefix and j % 3 == 0:
                 try:
                     yield (prefix + key if isinstance(key, bytes) else prefix.decode("ascii") + key), uni, prefix
@@ -322,10 +345,10 @@ def shard(tier, seed, idx, n):
 
     UNREACH_OPS = [
         ("get", lambda c, k: c.get(k)), ("set", lambda c, k: c.set(k, b"v", noreply=False)), ("delete", lambda c, k: c.delete(k)),
-        ("incr", lambda c, k: c.incr(k, 1)), ("touch", lambda c, k: c.touch(k, 5)), ("get_many", lambda c, k: c.get_many(["ok", k])),
-        ("set_many", lambda c, k: c.set_many({"ok": b"v", k: b"v"}, noreply=False)), ("gats", lambda c, k: c.gats(k, 5)),
+        ("incr", lambda c, k: c.incr(k, 1)), ("touch", lambda c, k: c.touch(k, 5)), ("get_many", lambda c, k: c.get_many(["o", k])),
+        ("set_many", lambda c, k: c.set_many({"o": b"v", k: b"v"}, noreply=False)), ("gats", lambda c, k: c.gats(k, 5)),
         ("cas", lambda c, k: c.cas(k, b"v", b"1")), ("append", lambda c, k: c.append(k, b"v")), ("add", lambda c, k: c.add(k, b"v")),
-        ("delete_many", lambda c, k: c.delete_many(["ok", k])), ("decr", lambda c, k: c.decr(k, 1)), ("gets", lambda c, k: c.gets(k)),
+        ("delete_many", lambda c, k: c.delete_many(["o", k])), ("decr", lambda c, k: c.decr(k, 1)), ("gets", lambda c, k: c.gets(k)),
         ("replace", lambda c, k: c.replace(k, b"v")), ("prepend", lambda c, k: c.prepend(k, b"v")), ("gat", lambda c, k: c.gat(k, 5)),
         # the mapping protocol where a class offers it (else the named method it stands for)
         ("getitem", lambda c, k: c[k] if hasattr(type(c), "__getitem__") else c.get(k)),
@@ -353,6 +376,10 @@ def shard(tier, seed, idx, n):
         judge_direct(res, st, base, "check_key_helper", lambda: helper(key, uni, prefix), key, uni, prefix)
         judge_direct(res, st, base, "Client.check_key", lambda: c.check_key(key, prefix), key, uni, prefix)
         judge_direct(res, st, base, "PooledClient.check_key", lambda: p.check_key(key), key, uni, prefix)
+        if i % 4 == 0:
+            import copy as _copy
+            cc = _copy.copy(c)          # a (shallow) copy of a client is configured like the client
+            judge_direct(res, st, base, "copy.copy(Client).check_key", lambda: cc.check_key(key, prefix), key, uni, prefix)
         # HashClient operation: accepted <=> a get for exactly prefix+key reaches the wire
         legal, wire = refs.key_legal(key, uni, prefix)
         if i % 3 == 0 or not legal or len(kb) > 200:
